@@ -152,6 +152,11 @@ class Env:
         info = self.cls(clsqual)
         self.ip.state.class_over[(info.qualname, attr)] = value
 
+    def pack(self, fmt, *vals):
+        """struct.pack through the same library contract the code uses (spec encodings share its pk_* functions)"""
+        from . import libspec
+        return libspec.struct_pack(self.ip, fmt, *vals)
+
     def instance(self, name, value):
         """callee postconditions quantified over the Skolem `name` are also instantiated at `value`"""
         self.ctx.instances.setdefault(name, []).append(value)
